@@ -1,6 +1,7 @@
 import CashewsVerif.Lemmas.TxSchedCounter
 import CashewsVerif.Lemmas.TxSchedOwn
 import CashewsVerif.Lemmas.TxSchedCheck
+import CashewsVerif.Lemmas.TxSchedPhase
 /-
 C05 — concurrent transactions commit exactly their own writes; no lost increments.
 
@@ -167,6 +168,23 @@ theorem write_phases_disjoint (store : Store) (ts : List Task) (hf : FreshTasks 
     rw [← hk]; exact hl
   exact hij (hinv.2.exclusive (key i hmi hi) (key j hmj hj))
 
+/-- **The store is written inside the write phase.**  Under every schedule (no timing hypothesis), a
+transaction in locked or serializable mode that is about to issue a commit command (`delete_many` /
+`set_many` — by `own_writes_only` the only store mutations it ever makes) is in its write phase: it holds a
+lock.  Together with `write_phases_disjoint`: in serializable mode, at the moment a transaction writes the
+store no other transaction is between its lock and its unlock — in particular no other commit falls between
+a transaction's `delete_many` and its `set_many`. -/
+theorem commit_inside_write_phase (store : Store) (ts : List Task) (hf : FreshTasks ts) (sched : List Act) (i : Nat) :
+    let w := (World.init store ts).run sched
+    (w.tasks i).mode ≠ .fast → ((w.tasks i).pc = .commitDel ∨ (w.tasks i).pc = .commitSet) → (w.tasks i).held ≠ [] := by
+  intro w hm hpc
+  have h := WLp_run store ts hf sched i
+  rcases hpc with hpc | hpc
+  · have := h.locks (by simp [Task.active, hpc]) hm (Or.inr (Or.inl (h.cdel hpc)))
+    simpa [Task.held, hpc] using this
+  · have := h.locks (by simp [Task.active, hpc]) hm (Or.inl (h.cset hpc))
+    simpa [Task.held, hpc] using this
+
 /-! ### Non-vacuity: the hypotheses are satisfiable and the model does something -/
 
 section examples
@@ -181,17 +199,12 @@ committed and unlocked -/
 def exSched : List Act :=
   [.run 0, .run 1, .run 0, .run 1, .run 0, .run 0, .run 0, .adv 4, .run 1, .run 1, .run 1, .run 1]
 
-theorem exFresh (m : Mode) : FreshTasks (exTasks m) := by
-  intro t ht
-  simp [exTasks] at ht
-  rcases ht with rfl | rfl <;> constructor <;> rfl
-
 /-- `WithinTimeout` holds of a schedule with real contention (a failed `set_lock`, a retry after 0.1 s) -/
 example : WithinTimeout (World.init (fun _ => none) (exTasks .locked)) exSched :=
-  withinTimeout_of_check _ _ (exFresh _) _ (by decide)
+  withinTimeout_of_check _ _ (by intro t ht; simp [exTasks] at ht; rcases ht with rfl | rfl <;> constructor <;> rfl) _ (by decide)
 
 example : WithinTimeout (World.init (fun _ => none) (exTasks .serializable)) exSched :=
-  withinTimeout_of_check _ _ (exFresh _) _ (by decide)
+  withinTimeout_of_check _ _ (by intro t ht; simp [exTasks] at ht; rcases ht with rfl | rfl <;> constructor <;> rfl) _ (by decide)
 
 /-- the other hypotheses of `no_lost_increments` hold of it -/
 example : ∀ t ∈ exTasks .locked, OnlyIncr 0 t.isTx t.prog := by
